@@ -59,10 +59,20 @@ def run_auto(case, evaluator=None):
         if v not in tr["zero_u"]:
             us[v] = 1
     tr["one_u"] = [v for v in tr["one_u"] if v not in tr["zero_u"]]
+    # ... or the numbers 2 and 1/2 (u is any real number; products of u values may be exactly 1 without every factor being 1).
+    # The result is scaled by 2^(number of halves) so that the substituted polynomial keeps integer coefficients.
+    tr["two_u"] = [v for v in case.get("two_u", []) if v != case["root"] and v not in tr["zero_u"] + tr["one_u"]]
+    tr["half_u"] = [v for v in case.get("half_u", []) if v != case["root"] and v not in tr["zero_u"] + tr["one_u"] + tr["two_u"]]
+    for v in tr["two_u"]:
+        us[v] = Fraction(2)
+    for v in tr["half_u"]:
+        us[v] = Fraction(1, 2)
     try:
         with watchdog(60):
             # the focal vertex is given as an EQUAL id, not as the graph's own node object (ids above 256 are not interned)
             val = ae.automated_equation(motif_graph(case["E"], case.get("name", "motif"), us), Poly.var("p"), int(str(case["root"])))
+        if tr["half_u"]:
+            val = val * (2 ** len(tr["half_u"]))
         tr["terms"], tr["malformed"] = poly_terms(val)
     except Timeout:
         raise
@@ -85,7 +95,7 @@ def run_clique(tau):
     V = list(range(tau))
     E = [list(e) for e in itertools.combinations(V, 2)]
     tr = {"kind": "poly", "what": "clique_equation", "case": {"kind": "clique", "tau": tau}, "V": V, "E": E, "root": 0,
-          "terms": [], "malformed": False, "raised": "", "zero_u": [], "one_u": []}
+          "terms": [], "malformed": False, "raised": "", "zero_u": [], "one_u": [], "two_u": [], "half_u": []}
     try:
         with watchdog(120):
             val = gcmpy.clique_equation(tau, Poly.var("p"), [Poly.var("u%d" % v) for v in V[1:]])
